@@ -329,5 +329,6 @@ TECHNIQUE = ('boundary recorder on the real skool2asm, skool2html and sna2skool 
              'skool file reconstruct every annotation place and instruction, compared token by token with the generated document; line-width rule and warning rule '
              'checked on every emitted line')
 LEVEL_TEXT = ('Each case writes one generated document as a skool file (layout chosen at random) and as a control file + image, runs the real tools on them and reads '
-              'the outputs back with readers written from the format descriptions. Sampled, boundary-biased exploration over text lengths and width settings.')
+              'the outputs back with readers written from the format descriptions (entry pages and the skool2html -1 single page; control files with the comment directives first, last or in a second -c file). '
+              'Sampled, boundary-biased exploration over text lengths and width settings.')
 LEVEL_NOTE = 'Macros other than #LIST/#TABLE, table spans, custom templates and the -H/-l conversions are outside the generated space.'
